@@ -147,7 +147,9 @@ func (c *AuthorizeExplicitGrantHandler) PopulateTokenEndpointResponse(ctx contex
 	}
 
 	var refresh, refreshSignature string
-	if canIssueRefreshToken(ctx, c, authorizeRequest) {
+	// The client stored with the code may be a stale copy of the registration: the client that is redeeming the code
+	// has to be allowed the refresh token grant type as well.
+	if canIssueRefreshToken(ctx, c, authorizeRequest) && requester.GetClient().GetGrantTypes().Has("refresh_token") {
 		refresh, refreshSignature, err = c.RefreshTokenStrategy.GenerateRefreshToken(ctx, requester)
 		if err != nil {
 			return errorsx.WithStack(fosite.ErrServerError.WithWrap(err).WithDebug(err.Error()))
